@@ -7,7 +7,7 @@ import json, os, subprocess, sys, time
 VERIF = os.path.dirname(os.path.dirname(os.path.abspath(__file__)))
 N = int(sys.argv[1]) if len(sys.argv) > 1 else 60
 SEED = int(sys.argv[2]) if len(sys.argv) > 2 else 1
-PROPS = ["C04", "C07", "C08", "C11", "C13", "C17", "C18", "C19", "C20"]
+PROPS = os.environ.get("PROPS", "C04,C07,C08,C11,C13,C17,C18,C19,C20").split(",")
 WORKER = r'''
 import sys, json, hashlib, os, itertools
 sys.path.insert(0, os.path.join(os.environ["SIMWORLD_VERIF"], "sim", "driver"))
@@ -24,7 +24,7 @@ step = max(1, len(allc) // n)
 cases = allc[::step][:n]
 import multiprocessing
 def one(c):
-    r = mod.run_case(c)
+    r = core.run_case_in_dir(mod, c)
     return [c.get("id"), hashlib.sha256(json.dumps(c, sort_keys=True, default=str).encode()).hexdigest()[:16], r.get("ok"), r.get("class"), r.get("stats", {}).get("digest")]
 ctx = multiprocessing.get_context("fork")
 with ctx.Pool(workers) as pool:
